@@ -8,7 +8,7 @@
 From RV Require Import Base.
 From RV.Model Require Import Utf8 Indexer CodePointSet Insn Fold IR Optimizer Unfold Emit ClassSet.
 From RV.Spec Require Import Spec IRSem IRShape.
-From RV.Proofs Require Import CpsProofs ClassSetProofs OptMono OptBrackets OptTop Utf8Facts Utf8Valid OptTextUtf8.
+From RV.Proofs Require Import CpsProofs Closure ClassSetProofs OptMono OptBrackets OptTop Utf8Facts Utf8Valid OptTextUtf8.
 
 Lemma vstrs_sfree canon ic e : sfree e = true -> vstrs canon ic e = [].
 Proof.
@@ -125,3 +125,87 @@ Section Atom.
     rewrite En. destruct (vmem fold eqclass ic e (dec c)); reflexivity.
   Qed.
 End Atom.
+
+(* ---- literal characters and the dot ---- *)
+Lemma expand_spec unicode c a : In a (expand_code_point c true unicode) <-> fold_code_point a unicode = fold_code_point c unicode.
+Proof.
+  unfold expand_code_point, fold_code_point. cbn [negb]. destruct unicode; [apply unfold_char_spec|apply unfold_uppercase_char_spec].
+Qed.
+
+(* Parser::char_node never meets its panic *)
+Theorem char_node_total icase unicode c : exists n, char_node icase unicode c = Ok n.
+Proof.
+  unfold char_node. destruct icase; cbn [negb]; [|eauto].
+  pose proof (expand_code_point_length c true unicode) as [H1 H4].
+  destruct (expand_code_point c true unicode) as [|x [|y t]] eqn:E; cbn [length] in *; [lia|eauto|].
+  assert (Hl : ((2 <=? S (S (length t))) && (S (S (length t)) <=? 4))%nat = true)
+    by (apply andb_true_iff; split; apply Nat.leb_le; lia).
+  rewrite Hl. eauto.
+Qed.
+
+Section CharAtom.
+  Variable foldf : N -> bool -> N.
+  Variables unicode utf16 : bool.
+  Variables (pre post : list (list N)) (c : list N).
+  Hypothesis Hw : wf_text (pre ++ c :: post).
+  Notation cs := (pre ++ c :: post).
+  Notation q := (length (concat pre)).
+  Notation u8 := (utf8_indexer foldf).
+  (* the reference's canonical form and equivalence classes for this mode: simple case folding under u/v, the legacy
+     upper-casing otherwise *)
+  Notation canon := (fun x => fold_code_point x unicode).
+  Variable eqclass : N -> list N.
+
+  Lemma next_if_c test : next_if u8 true (concat cs) q test = Ok (if test (dec c) then Some (q + length c)%nat else None).
+  Proof. unfold next_if. rewrite (reads_c foldf pre post c Hw). reflexivity. Qed.
+
+  Lemma nth_c : nth_error (map dec cs) (length pre) = Some (dec c).
+  Proof. rewrite map_app. cbn [map]. rewrite <- (map_length dec pre). induction (map dec pre) as [|x l IH]; [reflexivity|exact IH]. Qed.
+
+  (* a literal character *)
+  Theorem char_atom_step ch icase n f f' G caps : char_node icase unicode ch = Ok n ->
+    let decision := char_matches canon ch icase (dec c) in
+    es_results canon eqclass (map dec cs) (S f) (RChar ch icase) Fwd (length pre, caps) =
+      Some (if decision then [(S (length pre), caps)] else []) /\
+    ir_results u8 unicode utf16 (concat cs) (S f') n true (q, G) =
+      Some (if decision then [((q + length c)%nat, G)] else []).
+  Proof.
+    intros En decision. split.
+    - cbn [es_results]. unfold one, peek. cbn [fst snd]. rewrite nth_c. subst decision. destruct (char_matches _ ch icase (dec c)); reflexivity.
+    - unfold char_node in En. subst decision. unfold char_matches. destruct icase; cbn [negb] in En.
+      + pose proof (expand_spec unicode ch) as Hx. destruct (expand_code_point ch true unicode) as [|x [|y t]] eqn:E.
+        * cbn [length] in En. discriminate.
+        * (* one member: it is ch itself *)
+          inversion En; subst n. assert (x = ch) by (destruct (proj2 (Hx ch) eq_refl) as [H|[]]; exact H). subst x.
+          cbn [ir_results leaf_code run_insns match1]. unfold results_of. cbn [fst snd]. unfold char_pike. rewrite next_if_c.
+          destruct (N.eqb_spec ch (dec c)) as [->|Hne].
+          -- rewrite N.eqb_refl. reflexivity.
+          -- destruct (N.eqb_spec (fold_code_point ch unicode) (fold_code_point (dec c) unicode)) as [Ef|_]; [|reflexivity].
+             exfalso. apply Hne. symmetry in Ef. destruct (proj2 (Hx (dec c)) Ef) as [H|[]]. exact H.
+        * destruct ((2 <=? length (x :: y :: t)) && (length (x :: y :: t) <=? 4))%nat eqn:El; [|discriminate]. inversion En; subst n.
+          apply andb_true_iff in El as [_ L4]. apply Nat.leb_le in L4.
+          rewrite (charset_ir u8 unicode utf16 (concat cs) f' true (x :: y :: t) q G L4). unfold charset_step, charstep. rewrite next_if_c.
+          assert (Ed : list_contains (x :: y :: t) (dec c) = (fold_code_point ch unicode =? fold_code_point (dec c) unicode)).
+          { apply eq_true_iff_eq. unfold list_contains. rewrite existsb_exists, N.eqb_eq. split.
+            - intros (a & Ha & Ea). apply N.eqb_eq in Ea. subst a. symmetry. apply Hx. exact Ha.
+            - intros Ef. exists (dec c). split; [apply Hx; symmetry; exact Ef|apply N.eqb_refl]. }
+          rewrite Ed. destruct (_ =? _); reflexivity.
+      + inversion En; subst n. cbn [ir_results leaf_code run_insns match1]. unfold results_of. cbn [fst snd]. unfold char_pike. rewrite next_if_c.
+        destruct (ch =? dec c); reflexivity.
+  Qed.
+
+  (* the dot *)
+  Theorem dot_atom_step dot_all f f' G caps :
+    let decision := dot_all || negb (is_lt (dec c)) in
+    es_results canon eqclass (map dec cs) (S f) (RAny dot_all) Fwd (length pre, caps) =
+      Some (if decision then [(S (length pre), caps)] else []) /\
+    ir_results u8 unicode utf16 (concat cs) (S f') (dot_node dot_all) true (q, G) =
+      Some (if decision then [((q + length c)%nat, G)] else []).
+  Proof.
+    intros decision. split.
+    - cbn [es_results]. unfold one, peek. cbn [fst snd]. rewrite nth_c. subst decision. destruct (dot_all || negb (is_lt (dec c))); reflexivity.
+    - subst decision. unfold dot_node. destruct dot_all; cbn [ir_results leaf_code run_insns match1 orb]; unfold results_of; cbn [fst snd]; rewrite next_if_c.
+      + reflexivity.
+      + change (is_line_terminator (dec c)) with (is_lt (dec c)). destruct (negb (is_lt (dec c))); reflexivity.
+  Qed.
+End CharAtom.
